@@ -6,7 +6,7 @@ PROP = "C13"
 MODULE = "Proofs.C13"
 NS = "Teakra."
 THEOREMS = [NS + t for t in [
-    "dma_trace", "dma_trace_excluded", "dma_terminates", "dma_hangs", "dma_run_eq_fold", "run_trace",
+    "dma_trace", "dma_terminates", "dma_hangs_upstream", "dma_run_eq_fold", "run_trace",
     "spec_length", "spec_docExample", "dma_memory", "dma_memory_frame", "copyElem_frame", "dma_irq_once",
     "setZ_starts_only_on_magic", "setZ_magic",
     "AhbmChannel.aligned_unit_exact_write16", "AhbmChannel.aligned_unit_exact_write32",
@@ -24,8 +24,10 @@ ASSUMPTIONS = ["interrupt_handler is a pure counting callback; the external-memo
                "DSP-side accesses outside the 0x80000-byte array are outside this property (C18): model and harness "
                "both answer `oob` at the first such access",
                "DMA channel index < 8 and AHBM channel index < 3 (C18 owns the unmasked index)",
-               "dma_trace / dma_terminates exclude exactly dword_mode != 0 with size0 = 0xFFFF, where the C++ loop does "
-               "not end (proved: dma_hangs); generated transfers are capped at 4096 elements"]
+               "the tree under test has the repaired 32-bit cursor counters (dma_trace / dma_terminates then hold for every "
+               "configuration; with the upstream u16 counters dword_mode != 0 with size0 = 0xFFFF does not end: "
+               "dma_hangs_upstream, and the harness answers `hang` instead of blocking); generated transfers are capped at "
+               "4096 elements except the counter-boundary scripts (<= 0x30000 ticks)"]
 
 M32 = 0xFFFFFFFF
 STEP_POOL = [0, 1, 2, 3, 4, 0xFFFF, 0xFFFE, 0x8000, 0x7FFF, 0x100, 8, 6]
@@ -297,20 +299,23 @@ def direct_scripts(rng, count):
               a multiple of the burst length
       tail    as burst, element count NOT a multiple of the burst length
       e2e     external->external through one AHBM channel (x1 and burst)
-      hang    double-word mode with size0 = 0xFFFF
+      dword-ffff  double-word mode with size0 = 0xFFFF (0x8000 elements per stride; did not end upstream)
     """
     out = []
     for k in range(count):
-        cls = ["dsp", "dsp", "x1", "x1", "burst", "burst", "tail", "e2e", "e2e1", "hang"][k % 10]
+        cls = ["dsp", "dsp", "x1", "x1", "burst", "burst", "tail", "e2e", "e2e1", "dword-ffff"][k % 10]
         dword = rng.below(2)
         ub = 4 if dword else 2
         unit = 2 if dword else 1
         ch = rng.below(8)
         sc = ["dma init %x" % rng.bits(32)]
-        if cls == "hang":
+        if cls == "dword-ffff":
             sizes = (0xFFFF, rng.below(3), rng.below(3))
-            sc.append(cfg_line(ch, 0, 0x100, sizes, [0, 0, 0], [0, 0, 0], 0, 0, 1))
-            sc.append("dma startcheck %x" % ch)
+            n = dims(sizes[0], sizes[1], sizes[2], 1)
+            ss = [rng.choice([0, 1, 2]), rng.choice([0, 1]), 0]
+            ds = [rng.choice([0, 1, 2]), rng.choice([0, 1]), 0]
+            sc.append(cfg_line(ch, dsp_base(rng, extent(n, ss), 1), dsp_base(rng, extent(n, ds), 1), sizes, ss, ds, 0, 0, 1))
+            sc.append("dma startcheck %x" % ch if rng.chance(1, 2) else "dma start %x" % ch)
             out.append((cls, sc))
             continue
         if cls == "dsp":
@@ -381,7 +386,7 @@ def direct_scripts(rng, count):
 
 
 DIRECT_TEXT = {
-    "hang": "DMA never completes: in double-word mode with SIZE0 = 0xFFFF the u16 dimension-0 counter goes "
+    "dword-ffff": "DMA never completes: in double-word mode with SIZE0 = 0xFFFF the u16 dimension-0 counter goes "
             "0xFFFE -> 0 and never reaches SIZE0, so Dma::DoDma does not return and no interrupt is raised",
     "tail-write": "burst tail lost: with burst x4/x8 and an element count that is not a multiple of the burst length the "
                   "last elements written to external memory stay in the AHBM burst queue and never reach memory",
@@ -447,7 +452,7 @@ def explore(rng, tier, replay=None):
     n_same = n_skip = 0
     for (cls, sc), r in zip(direct, a):
         for line, resp in zip(sc, r):
-            if " startcheck " not in line:
+            if " startcheck " not in line and " start " not in line:
                 continue
             if resp.startswith("same"):
                 n_same += 1
